@@ -106,6 +106,12 @@ func addTo(k protoreflect.Kind, v protoreflect.Value, d int64) protoreflect.Valu
 // Witness builds the simplest request of type full that satisfies the declared rules, with URL-bound
 // fields non-empty: start from the default point and repair violating top-level fields greedily.
 func Witness(full string, dims []Dim) proto.Message {
+	m, _ := WitnessIdx(full, dims)
+	return m
+}
+
+// WitnessIdx also returns the chosen alternative per dimension.
+func WitnessIdx(full string, dims []Dim) (proto.Message, []int) {
 	idx := make([]int, len(dims))
 	build := func() proto.Message {
 		m, err := NewMessage(full)
@@ -120,11 +126,11 @@ func Witness(full string, dims []Dim) proto.Message {
 	for iter := 0; iter < 4*len(dims)+4; iter++ {
 		m := build()
 		if m == nil {
-			return nil
+			return nil, nil
 		}
 		viols := protovalidate.Check(m)
 		if len(viols) == 0 {
-			return m
+			return m, idx
 		}
 		fixed := false
 		for _, v := range viols {
@@ -162,8 +168,8 @@ func Witness(full string, dims []Dim) proto.Message {
 			}
 		}
 		if !fixed {
-			return nil
+			return nil, nil
 		}
 	}
-	return nil
+	return nil, nil
 }
